@@ -1077,7 +1077,8 @@ def rule_r5(chk, prog):
         cfg = cfg_of(tg)
         head = cfg.node_of[id(l)]
         ok = True
-        for p in loop_body_paths(cfg, l):
+        # including the iterations that end in an exception handler
+        for p in loop_body_paths(cfg, l, follow_exc=True):
             if p.end is head:
                 incs = [n.ast for n in p.nodes[:-1] if n.kind == 'stmt'
                         and isinstance(n.ast, ast.AugAssign)
@@ -1290,6 +1291,13 @@ def run(tier):
     chk.guard(rule_r4, chk, prog)
     chk.guard(rule_r5, chk, prog)
     chk.guard(rule_r8, chk, prog)
+    from . import c16
+    sub16 = Check('C16', 'other', tier, [], [])
+    chk.guard(c16.rule_r8, sub16, prog)
+    chk.adopt('C03.R9', 'sort inference is memoised for every result, the '
+              '"unknown" one included: it asks for the sort of the same '
+              'operand more than once, so without the memo its cost doubles '
+              'per nesting level (shared with C16.R8)', sub16)
     extra = None
     if tier == 'thorough':
         from .. import selftest
